@@ -119,7 +119,8 @@ def random_curve(rng):
     m = rng.choice(gens.builtin_mixtures())
     n = rng.randint(1, 5)
     ctype = rng.choice(['weight', 'molar'])
-    xs = [pv.Composition(p=rng.uniform(0.02, 0.98), type=ctype) for _ in range(n)]
+    mixed = rng.random() < 0.35       # every point carries its own basis
+    xs = [pv.Composition(p=rng.uniform(0.02, 0.98), type=(rng.choice(['weight', 'molar']) if mixed else ctype)) for _ in range(n)]
     T = rng.uniform(290, 370)
     mode = rng.choice(['vac', 'temp', 'press'])
     tp = rng.uniform(150, 260) if mode == 'temp' else None
@@ -135,7 +136,7 @@ def random_curve(rng):
                              pv.Permeance(mag(), 'kg/(m2*h*kPa)').convert(units, m.second_component)) for _ in range(n)]
     c = DiffusionCurve(mixture=m, membrane_name='corr_membrane', feed_temperature=T, feed_compositions=xs,
                        permeate_temperature=tp, permeate_pressure=pp, comments='corr', **kw)
-    return c, m, dict(points=n, basis=ctype, mode=mode, built_from=how, units=units)
+    return c, m, dict(points=n, basis=('mixed' if mixed else ctype), mode=mode, built_from=how, units=units)
 
 
 def curve_items(rng, tmp, ncases, items, samples, dist):
